@@ -3,6 +3,7 @@ import Dashu.Proofs.Macro.Grammar
 import Dashu.Proofs.Macro.RatLoop
 import Dashu.Proofs.Macro.FloatLit
 import Dashu.Proofs.Macro.IntLoop
+import Dashu.Proofs.Macro.FloatDigits
 /-
   C20 — Literal macros build exactly the number that was written.
 
@@ -176,6 +177,105 @@ theorem float_literal_exact (B : Nat) (hB : Dashu.Model.Text.validRadix B = true
 example : (∀ d ∈ [1, 2], d < 10) ∧ (∀ d ∈ (some [5] : Option (List Nat)).getD [], d < 10) ∧
     Dashu.Model.Text.renderLiteral false (some true) [1, 2] (some [5]) none = [45, 49, 50, 46, 53] := by
   refine ⟨by decide, by decide, by decide⟩
+
+-- ---------------------------------------------------------------------- fbig!'s own stripping, hexadecimal forms
+
+/-- **`fbig!`'s sign / underscore stripping, on EVERY token list** (`parse_binary_float`,
+    macros/src/parse/float.rs, mirrored statement by statement as `fbigNew`): the sign taken off the
+    front, the one macro-only `_` dropped, the rest parsed unsigned and the sign re-attached by
+    `IBig::from_parts` — the outcome is exactly the run-time parser's on the text without that `_`;
+    a literal with a sign behind the stripped prefix (`-+1`, `_-1`, `_+1`) is refused -/
+theorem fbig_strip_is_runtime_parse (toks : List Tok) :
+    (fbigNew toks).map fpOfParts = (if fbigSecondSign toks then none else rtFloat true toks) :=
+  fbigNew_eq toks
+
+/-- the mirrors of the two float macros decide exactly what the model prescribes (the driver runs both
+    sides and reports a difference as a defect of the model) -/
+theorem float_macro_is_literal (toks : List Tok) :
+    (fbigNew toks).map fpOfParts = floatLiteral true toks ∧ (dbigAsIs toks).map fpOfParts = floatLiteral false toks ∧
+    (dbigAsIs toks).map fpOfParts = rtFloat false toks :=
+  ⟨fbigNew_eq_literal toks, dbig_eq_literal toks, dbig_eq toks⟩
+
+example : (fbigNew [.punct 45, .ident [95, 49, 48, 49]]).map fpOfParts = some ⟨-5, 0, 3⟩ ∧
+    fbigNew [.punct 45, .punct 43, .lit [49]] = none ∧ fbigNew [.ident [95], .punct 43, .lit [49]] = none ∧
+    rtFloat true [.ident [95], .punct 43, .lit [49]] = some ⟨1, 0, 1⟩ := by
+  refine ⟨by decide, by decide, by decide, by decide⟩
+
+/-- **hexadecimal float literal = the number written** (`[sign] 0x int [. frac] [p|P|@ exponent]`,
+    base 2): the parser the macro runs returns `± (hex digits) · 2^(exponent − 4·#fraction digits)`
+    exactly, precision = 4 bits per hexadecimal digit written -/
+theorem hex_float_literal_exact (up : Bool) (x m : Nat) (hx : x = 120 ∨ x = 88) (hm : m = 112 ∨ m = 80 ∨ m = 64)
+    (sign : Option Bool) (di : List Nat) (frac : Option (List Nat)) (scale : Option Int)
+    (hdi : ∀ d ∈ di, d < 16) (hdf : ∀ d ∈ frac.getD [], d < 16) (hne : di ≠ [] ∨ frac.getD [] ≠ [])
+    (hs : ∀ z, scale = some z → -(2 ^ 63 : Int) ≤ z ∧ z < (2 ^ 63 : Int)) :
+    ∃ r : Dashu.Model.Float.FRepr,
+      r.toRat 2 = (if sign = some true then -1 else 1) * (Dashu.Model.Text.ofDigits 16 (di ++ frac.getD []) : ℚ) *
+        Dashu.Model.Float.bpowQ 2 (scale.getD 0 - ((4 * (frac.getD []).length : Nat) : Int)) ∧
+      (inIsize r.exp → floatParse 2 (renderHex up x m sign di frac scale) =
+        some (⟨r.signif, r.exp⟩, 4 * (di.length + (frac.getD []).length))) :=
+  floatParse_hex up x m hx hm sign di frac scale hdi hdf hne hs
+
+/-- non-vacuity: `-0x3.ef`, and the parser on `-0x3.efp-2` -/
+example : renderHex false 120 112 (some true) [3] (some [14, 15]) none = [45, 48, 120, 51, 46, 101, 102] ∧
+    floatParse 2 [45, 48, 120, 51, 46, 101, 102] = some (⟨-0x3ef, -8⟩, 12) ∧
+    floatParse 2 [45, 48, 120, 51, 46, 101, 102, 112, 45, 50] = some (⟨-0x3ef, -10⟩, 12) := by
+  refine ⟨by decide, by decide, by decide⟩
+
+/-- **`fbig!` on the hexadecimal forms**, including the macro-only `_` (`fbig!(-_0xae.1f)`): tokens
+    that spell `[sign] [_] 0x int [. frac] [p exponent]` expand to exactly the number written — as the
+    code computes it and as the model prescribes -/
+theorem fbig_hex_literal_value (toks : List Tok) (us up : Bool) (x m : Nat) (hx : x = 120 ∨ x = 88)
+    (hm : m = 112 ∨ m = 80 ∨ m = 64) (sign : Option Bool) (di : List Nat) (frac : Option (List Nat))
+    (scale : Option Int) (hdi : ∀ d ∈ di, d < 16) (hdf : ∀ d ∈ frac.getD [], d < 16)
+    (hne : di ≠ [] ∨ frac.getD [] ≠ []) (hs : ∀ z, scale = some z → -(2 ^ 63 : Int) ≤ z ∧ z < (2 ^ 63 : Int))
+    (htext : concatToks toks = Dashu.Model.Text.signChars sign ++ ((if us then [95] else []) ++
+      (48 :: x :: ((Dashu.Model.Text.chars up di ++ Dashu.Model.Text.fracChars up frac) ++ pScaleChars m scale)))) :
+    ∃ r : Dashu.Model.Float.FRepr,
+      r.toRat 2 = (if sign = some true then -1 else 1) * (Dashu.Model.Text.ofDigits 16 (di ++ frac.getD []) : ℚ) *
+        Dashu.Model.Float.bpowQ 2 (scale.getD 0 - ((4 * (frac.getD []).length : Nat) : Int)) ∧
+      (inIsize r.exp →
+        (fbigNew toks).map fpOfParts = some ⟨r.signif, r.exp, 4 * (di.length + (frac.getD []).length)⟩ ∧
+        floatLiteral true toks = some ⟨r.signif, r.exp, 4 * (di.length + (frac.getD []).length)⟩) :=
+  fbig_hex_literal toks us up x m hx hm sign di frac scale hdi hdf hne hs htext
+
+/-- non-vacuity: `fbig!(-_0xae.1f)` — tokens `-`, `_0xae` (an identifier for rustc), `.`, `1f` -/
+example : concatToks [.punct 45, .ident [95, 48, 120, 97, 101], .punct 46, .lit [49, 102]] =
+    Dashu.Model.Text.signChars (some true) ++ ((if true then [95] else []) ++
+      (48 :: 120 :: ((Dashu.Model.Text.chars false [10, 14] ++ Dashu.Model.Text.fracChars false (some [1, 15])) ++ pScaleChars 112 none))) ∧
+    (fbigNew [.punct 45, .ident [95, 48, 120, 97, 101], .punct 46, .lit [49, 102]]).map fpOfParts =
+      some ⟨-0xae1f, -8, 16⟩ := by
+  refine ⟨by decide, by decide⟩
+
+/-- **every accepted float literal, whatever its form** (underscore separators, any scale marker of
+    the base, hexadecimal with `fbig!`): value `± (its digits) · B^(scale − k·#fraction digits)` and
+    precision `k ·` (number of digits written), `k = 4` for hexadecimal digits and `1` otherwise -/
+theorem float_literal_denotes (binary : Bool) (toks : List Tok) (v : FPVal) (h : floatLiteral binary toks = some v) :
+    ∃ (neg hex : Bool) (di df : List Nat) (scale : Int), (hex = true → binary = true) ∧
+      (∀ d ∈ di ++ df, d < (if hex then 16 else (if binary then 2 else 10))) ∧ di ++ df ≠ [] ∧
+      v.prec = (di.length + df.length) * (if hex then 4 else 1) ∧
+      (Dashu.Model.Float.FRepr.mk v.signif v.exp).toRat (if binary then 2 else 10) =
+        (if neg then -1 else 1) *
+          (Dashu.Model.Text.ofDigits (if hex then 16 else (if binary then 2 else 10)) (di ++ df) : ℚ) *
+          Dashu.Model.Float.bpowQ (if binary then 2 else 10) (scale - ((df.length * (if hex then 4 else 1) : Nat) : Int)) :=
+  floatLiteral_denotes binary toks v h
+
+example : floatLiteral true [.lit [48, 120, 49, 95, 56, 112, 51]] = some ⟨3, 6, 8⟩ := by decide
+
+/-- **heap / static path of the float macros**: `Repr::new(significand, exponent)` in the expansion
+    (and the word array + exponent handed to `Repr::from_static_words`) reproduce the parsed, normalised
+    representation unchanged -/
+theorem float_expansion_repr_fixed (binary : Bool) (toks : List Tok) (v : FPVal) (h : floatLiteral binary toks = some v) :
+    fnew (if binary then 2 else 10) v.signif v.exp = some ⟨v.signif, v.exp⟩ :=
+  floatLiteral_repr_fixed binary toks v h
+
+/-- **digits ≤ precision**: an accepted float literal never carries more significant digits (of base 2
+    resp. 10) than its precision — the number of digits written, 4 per hexadecimal digit — so the
+    `debug_assert!(digits ≤ precision)` of `FBig::from_repr` in the heap expansion cannot fire and the
+    value needs no rounding to fit its own precision -/
+theorem float_literal_digits_le_precision (binary : Bool) (toks : List Tok) (v : FPVal)
+    (h : floatLiteral binary toks = some v) :
+    (Dashu.Model.Float.FRepr.mk v.signif v.exp).digits (if binary then 2 else 10) ≤ v.prec :=
+  floatLiteral_digits_le_prec binary toks v h
 
 -- ====================================================================== findings
 -- the first two: the token loops before /repo e26a9db (fixed); the third: still open
